@@ -2,7 +2,7 @@ CONSTANTS
   MaxLen = 4
   CounterWidth = 1
   CounterLimit = 2
-  Alphabet = {97, 65, 95, 49}
+  Alphabet <- SeqSymbols
   MaxNameLen = 3
   MaxSeq = 3
   Affixes <- SeqAffixes
